@@ -163,22 +163,43 @@ func nativeReplay(verif, repo, prop string, v *Violation, path string) (bool, st
 		return false, "", fmt.Errorf("harness uses engine-only environment models (schedule/FS/clock); deterministic engine replay only")
 	}
 	rc := replayCase{Harness: v.Harness, Inputs: v.Inputs, Choices: v.Choices, Tier: eng.tier, Known: openKnown(eng), Outcome: v.Kind, Label: v.Label}
-	res, out, err := runNative(eng, verif, repo, pkgOfHarness(eng, v.Harness), []replayCase{rc})
+	// a counterexample that depends on a map iteration order cannot be forced natively (Go
+	// randomises it): repeat the native run, any reproduction confirms it
+	n := 1
+	for _, ch := range v.Choices {
+		if strings.HasPrefix(ch.Name, "maporder") && ch.Val != 0 {
+			n = 60
+		}
+	}
+	cases := make([]replayCase, n)
+	for i := range cases {
+		cases[i] = rc
+	}
+	res, out, err := runNative(eng, verif, repo, pkgOfHarness(eng, v.Harness), cases)
 	if err != nil {
 		return false, out, err
 	}
-	r := res[0]
-	switch v.Kind {
-	case "ASSERT":
-		// the engine keeps going after a failed assertion, the native run stops at the first one:
-		// any natively failing assertion on this input confirms a violation on it
-		return r.Outcome == "ASSERT", r.Raw, nil
-	case "PANIC":
-		return r.Outcome == "PANIC", r.Raw, nil
-	case "BLOCKED", "DIVERGE":
-		return r.Outcome == "TIMEOUT", r.Raw, nil
+	last := ""
+	for _, r := range res {
+		last = r.Raw
+		switch v.Kind {
+		case "ASSERT":
+			// the engine keeps going after a failed assertion, the native run stops at the first one:
+			// any natively failing assertion on this input confirms a violation on it
+			if r.Outcome == "ASSERT" {
+				return true, r.Raw, nil
+			}
+		case "PANIC":
+			if r.Outcome == "PANIC" {
+				return true, r.Raw, nil
+			}
+		case "BLOCKED", "DIVERGE":
+			if r.Outcome == "TIMEOUT" {
+				return true, r.Raw, nil
+			}
+		}
 	}
-	return false, r.Raw, nil
+	return false, last, nil
 }
 
 var currentEngine *Engine
